@@ -336,6 +336,11 @@ func readChunks(b *bolt.Bucket, size int64) (chunks []chunkEntry, err error) {
 	nextOffset := size
 	for i := len(chunks) - 1; i >= 0; i-- {
 		chunks[i].chunkSize = nextOffset - chunks[i].chunkOffset
+		if chunks[i].chunkSize <= 0 {
+			// chunks recorded in the (untrusted) TOC overlap or lie beyond the file size
+			return nil, fmt.Errorf("invalid chunk at offset %d (size %d) in a file of size %d",
+				chunks[i].chunkOffset, chunks[i].chunkSize, size)
+		}
 		nextOffset = chunks[i].chunkOffset
 	}
 	return
